@@ -225,6 +225,10 @@ _SPECS = {
     'd3_slash':      {'hierarchy': ['class', 'subclass', 'cluster'],
                       'class': {'IT/ET': ['L2/3 IT', 'L5 ET'], 'Inh': ['Sst/Chodl']},
                       'subclass': {'L2/3 IT': ['c0', 'c1/a'], 'L5 ET': ['c2'], 'Sst/Chodl': ['c3', 'c4']}},
+    # labels of different lengths inside a level (s1 / s10): label arrays must not be fixed-width
+    'd3_len':        {'hierarchy': ['class', 'subclass', 'cluster'],
+                      'class': {'c1': ['s1', 's2'], 'c2': ['s10', 's11']},
+                      'subclass': {'s1': ['k1', 'k2'], 's2': ['k3'], 's10': ['k10', 'k11_long_label'], 's11': ['k12']}},
     # a level whose name is a prefix of the next level's name
     'd3_prefix':     {'hierarchy': ['type', 'type_fine', 'cluster'],
                       'type': {'T1': ['f2'], 'T0': ['f0', 'f1']},
